@@ -41,6 +41,15 @@ type c20Job struct {
 	lenient   bool // shares its reference with another pending job of the same actor: which of the two is live is unspecified
 }
 
+// c20OwnerName: the second owner's name continues the first one's (/sup/j0 and /sup/j0b): jobs are keyed by the owner's
+// whole path, a path that merely begins like another actor's is a different actor.
+func c20OwnerName(o int) string {
+	if o == 1 {
+		return "j0b"
+	}
+	return fmt.Sprintf("j%d", o)
+}
+
 func c20Jobs(r *R) {
 	w := newWorld(r, WorldOpt{})
 	if r.Failed() {
@@ -88,10 +97,10 @@ func c20Jobs(r *R) {
 		if o == 2 {
 			return "/sup2/j0"
 		}
-		return fmt.Sprintf("/sup/j%d", o)
+		return "/sup/" + c20OwnerName(o)
 	}
 	for i := 0; i < nOwners && i < 2; i++ {
-		sup.Children = append(sup.Children, &Spec{Name: fmt.Sprintf("j%d", i), OnOther: onOther, OnLaunch: relaunchHook(i)})
+		sup.Children = append(sup.Children, &Spec{Name: c20OwnerName(i), OnOther: onOther, OnLaunch: relaunchHook(i)})
 	}
 	if _, err := w.Spawn(sup); err != nil {
 		r.Fail("C20/harness", "spawn: %v", err)
